@@ -97,8 +97,27 @@ func runCase(cs poolsim.Case, coqWanted bool) (coqOut string, failOut *failure, 
 	}
 	st := stats{}
 	track := map[types.TransactionID]*tracked{}
-	maxPool := uint64(20_000_000)
+	maxPool := r.MW * poolsim.CapBlocks
 	var prevWeight uint64
+	// a third of the histories read the pool from inside the reorg / pool-change notifications
+	if cs.Seed%3 == 0 {
+		r.Listen()
+		st["histories-with-listener-reads"]++
+	}
+	// the lists as last read (ids to ask for when another call than the listing comes first)
+	var last1 []types.Transaction
+	var last2 []types.V2Transaction
+	lastTip := w.Info(r.Tip).Index
+	// firstRead: the step's call was made with Runner.DeferNext (nothing read the pool since); one
+	// reading call of the given kind comes first and is judged by the lists read right after it
+	firstRead := func(kind, what string) {
+		if kind == "" || fail != nil {
+			return
+		}
+		if bad := r.FirstRead(kind, last1, last2, lastTip); bad != "" {
+			report("c05-first-read-differs", "after "+what+": "+bad)
+		}
+	}
 
 	// ledgers of the blocks the tip passed through since the pool was last judged
 	var pendingLedgers []*poolsim.NodeInfo
@@ -124,6 +143,7 @@ func runCase(cs poolsim.Case, coqWanted bool) (coqOut string, failOut *failure, 
 		if fail != nil {
 			return
 		}
+		last1, last2, lastTip = v1, v2, w.Info(tip).Index
 		st["steps"]++
 		st["pool-transactions-validated"] += len(v1) + len(v2)
 		// 1. every prefix valid: sequential validation by core from a fresh mid-state on the
@@ -308,15 +328,31 @@ func runCase(cs poolsim.Case, coqWanted bool) (coqOut string, failOut *failure, 
 		var known bool
 		var err error
 		var pan bool
+		// every fourth submission is followed by another reading call than the listing: the lookup of
+		// a member (whether the set was accepted or rolled back), the v2 list, MineBlock
+		fr := ""
+		if step%4 == 3 {
+			fr = []string{"v2-list", "lookup-v1", "lookup-v2", "mine", "partial-block"}[(step/4)%5]
+			r.DeferNext = true
+		}
 		if s.V2 {
 			known, err, pan = r.Submit2(s.Basis, s.V2s, s.Metas)
 		} else {
 			known, err, pan = r.Submit1(s.V1, s.Metas)
 		}
+		r.DeferNext = false
 		st["submit:"+s.Flavor]++
 		if pan {
 			report("c05-submit-panic", fmt.Sprintf("submitting a %s set panicked", s.Flavor))
 			return 0
+		}
+		if fr != "" {
+			// (ids to ask for: the pool before the call and the members of the set)
+			a1, a2 := append(append([]types.Transaction(nil), b1...), s.V1...), append(append([]types.V2Transaction(nil), b2...), s.V2s...)
+			if bad := r.FirstRead(fr, a1, a2, w.Info(r.Tip).Index); bad != "" {
+				report("c05-first-read-differs", fmt.Sprintf("after a %s submission (error: %v): %s", s.Flavor, err, bad))
+				return 0
+			}
 		}
 		var added uint64
 		if err == nil && !known {
@@ -392,7 +428,17 @@ func runCase(cs poolsim.Case, coqWanted bool) (coqOut string, failOut *failure, 
 		switch stp.Kind {
 		case "chain":
 			_, poolV2 := r.Pool()
+			// every third block submission is followed by another reading call than the listing
+			fr := ""
+			if g.Chance(1, 3) {
+				fr = poolsim.FirstReaders[g.Intn(len(poolsim.FirstReaders))]
+				r.DeferNext = true
+			}
 			o := r.Chain(stp.Op)
+			r.DeferNext = false
+			if r.Tip != before {
+				firstRead(fr, stp.String())
+			}
 			// law used by C05_retention: the re-offered v1 transactions of the last reverted block
 			// spend nothing a pooled v2 transaction uses
 			if lr := r.LastReverted(); lr != nil && r.Tip != before {
@@ -432,6 +478,42 @@ func runCase(cs poolsim.Case, coqWanted bool) (coqOut string, failOut *failure, 
 			}
 			if o.Err {
 				st["chain-op-errors"]++
+				if r.Tip == before {
+					// a reorg that failed on a block with an invalid body was rolled back: the valid blocks
+					// below that block were applied transiently (and the blocks down to the fork point
+					// reverted); their ledgers belong to the path the pool went through
+					var best *chaingen.Node
+					for _, i := range stp.Op.Nodes {
+						n := t.Nodes[i]
+						if n.HdrOK && !n.ChainValid() && mgrsim.Heavier(n, before) && (best == nil || mgrsim.Heavier(n, best)) {
+							hdr := true
+							for a := n; a != nil && a.Parent != nil; a = a.Parent {
+								hdr = hdr && a.HdrOK && r.Known[a.Parent]
+							}
+							if hdr {
+								best = n
+							}
+						}
+					}
+					if best != nil {
+						v := best
+						for a := best; a != nil; a = a.Parent {
+							if !a.ChainValid() {
+								v = a.Parent
+							}
+						}
+						st["failed-reorgs"]++
+						if v != nil && v != before {
+							rv, ap := poolsim.TreePath(before, v)
+							if len(rv)+len(ap) > 0 {
+								st["failed-reorgs-with-transient-blocks"]++
+								st["transient-blocks"] += len(rv) + len(ap)
+							}
+							addPath(before, v)
+							addPath(v, before)
+						}
+					}
+				}
 			}
 			if r.Tip != before {
 				rev, _ := poolsim.TreePath(before, r.Tip)
@@ -442,8 +524,16 @@ func runCase(cs poolsim.Case, coqWanted bool) (coqOut string, failOut *failure, 
 			}
 		case "mine":
 			if b, ok := r.MineOnly(); ok {
-				if r.Adopt(b) {
+				fr := ""
+				if g.Chance(1, 3) {
+					fr = poolsim.FirstReaders[g.Intn(len(poolsim.FirstReaders))]
+					r.DeferNext = true
+				}
+				adopted := r.Adopt(b)
+				r.DeferNext = false
+				if adopted {
 					st["mined-blocks-adopted"]++
+					firstRead(fr, "a block mined from the pool")
 				} else if fail == nil {
 					report("c05-mined-block-rejected", fmt.Sprintf("the node rejected the block it mined itself from its pool (%d v1, %d v2 transactions on height %d)", len(b.Transactions), len(b.V2Transactions()), before.Height+1))
 				}
@@ -468,6 +558,9 @@ func runCase(cs poolsim.Case, coqWanted bool) (coqOut string, failOut *failure, 
 		}
 		check(i, stp.String(), before, added, stp.Kind == "mine" || g.Chance(1, 3))
 	}
+	for k, v := range r.Stats {
+		st[k] += v
+	}
 	coq := ""
 	if coqWanted && r.NoCoq == "" && fail == nil {
 		coq = r.CoqCase()
@@ -478,7 +571,7 @@ func runCase(cs poolsim.Case, coqWanted bool) (coqOut string, failOut *failure, 
 var flavors = []string{
 	"fresh-v1", "fresh-v2", "chain-v1", "chain-v2", "chain-v2", "stale-v2", "stale-v2", "conflict-v1", "conflict-v2",
 	"set-conflict-v1", "set-conflict-v2", "set-invalid-v1", "set-invalid-v2", "partly-known-v1", "partly-known-v2",
-	"known-v1", "known-v2", "child-only-v1", "child-only-v2", "builder", "builder", "builder", "wrong-basis-v2", "corrupt-proof-v2",
+	"known-v1", "known-v2", "child-only-v1", "child-only-v2", "builder", "builder", "builder", "wrong-basis-v2", "corrupt-proof-v2", "dup-v1", "dup-v2",
 }
 
 // corpus: directed histories, run first.
@@ -544,6 +637,25 @@ func corpus(seed uint64) []poolsim.Case {
 			c.Plan = append(c.Plan, poolsim.Step{Kind: "chain", Op: mgrsim.Op{Kind: "add", Nodes: []int{n}}, Quiet: true})
 		}
 		c.Plan = append(c.Plan, poolsim.Step{Kind: "submit", Flavor: "fresh-v2", Seed: 45 + seed}, poolsim.Step{Kind: "mine"})
+		out = append(out, c)
+	}
+	// reorgs that fail after valid blocks of the other branch were applied (and blocks of the own branch
+	// reverted): trunk 1-2, branch A 3-4, branch B 5-6; 7 = a copy of 6 with an invalid body, 8 and 9 = header-valid
+	// blocks on top of it. The pool holds transactions that block 5 conflicts with and unrelated ones.
+	for _, regime := range []int{2, 0, 1} {
+		c = poolsim.Case{Seed: seed*977 + 4000 + uint64(regime), Regime: regime, Opts: chaingen.GenOpts{Shape: []int{0, 1, 2, 3, 2, 5}, TxPerBlock: 2},
+			Extra: []poolsim.ExtraBlock{{Kind: "corrupt-copy", Of: 6}, {Kind: "on-invalid", Of: 7}, {Kind: "on-invalid", Of: 8}}}
+		add := func(ids ...int) poolsim.Step {
+			return poolsim.Step{Kind: "chain", Op: mgrsim.Op{Kind: "add", Nodes: ids}}
+		}
+		kind := map[int]string{2: "v2", 0: "v1", 1: "v2"}[regime]
+		c.Plan = []poolsim.Step{add(1, 2, 3, 4),
+			{Kind: "submit", Flavor: "spend-as-block:5", Seed: 51 + seed}, {Kind: "submit", Flavor: "spend-as-block:5", Seed: 52 + seed},
+			{Kind: "submit", Flavor: "fresh-" + kind, Seed: 53 + seed}, {Kind: "submit", Flavor: "chain-" + kind, Seed: 54 + seed},
+			{Kind: "submit", Flavor: "spend-as-block:4", Seed: 55 + seed},
+			add(5), add(7, 8), add(9),
+			{Kind: "submit", Flavor: "fresh-" + kind, Seed: 56 + seed}, {Kind: "mine"},
+			add(6), {Kind: "mine"}}
 		out = append(out, c)
 	}
 	// a well filled pool that is not full (8 chains x 5 x ~450 kB = 18e6 of 20e6), then a refused set
